@@ -36,6 +36,9 @@ def main(run):
         "and on ONE already-evaluated object (evaluate, set masses / force constants through the public setters, evaluate "
         "again, both orders, through run_qpoints, run_mesh, run_band_structure and dynamical_matrix.run); "
         "tolerance 1e-8*||D||. correspondence: a sample of cases against the Lean model (the full correspondence is C02's). "
+        "Additionally 3 relabelled descriptions per run (gen.relabelled_cell, at least one left-handed; without NAC, Wang NAC, "
+        "Gonze-Lee NAC): Hermiticity, time reversal, q+G (no NAC), rotations of the relabelled cell's own symmetry, scaling, "
+        "and the spectrum at qmap(q) against the original description. "
         "Additionally wurtzite / hcp with fractional coordinates rounded to six decimals (noise inside symprec) and long-range "
         "pair force constants of the ideal sites: spectra of q and Rq agree to 1e-7*||D||. "
         "Non-trivial = supercell larger than the primitive cell, q not Gamma (except the acoustic clause), matrix non-zero.")
@@ -397,6 +400,110 @@ def main(run):
     common.switch_variant("ser")
     oracle_pass("ser")
     common.switch_variant("omp")
+
+    # ------------------------------------------------------------------ description invariance (gen.relabelled_cell):
+    # the clauses of the property ON left-handed / sheared / permuted descriptions of a crystal (rotations from the
+    # relabelled primitive cell's own symmetry) and the spectrum at qmap(q) against the original description; without
+    # NAC and with the two NAC methods (cubic binaries, isotropic Born charges and dielectric constant so that the
+    # tensors have the crystal's symmetry; Cartesian tensors are the same in every description).
+    from phonopy.structure.cells import get_primitive_matrix_by_centring
+
+    nac_cases = [("nacl_prim", (2, 2, 2)), ("zincblende_prim", (2, 2, 2)), ("cscl", (2, 2, 2)), ("nacl", (2, 2, 2))]
+    picks = U.relabel_picks(rng, 5 if thorough else 3)
+    methods = [None, "wang", "gonze"]
+    rng.shuffle(methods)
+    for pi_, mname in enumerate(picks):
+        method = methods[pi_ % 3]
+        for _try in range(20):
+            name, dims = (nac_cases if method else U.RELABEL_CASES)[rng.randrange(len(nac_cases if method else U.RELABEL_CASES))]
+            cell, cen = U.get_cell(name)
+            smat = np.diag(dims)
+            ph0 = Phonopy(cell, supercell_matrix=smat, primitive_matrix=get_primitive_matrix_by_centring(cen), log_level=0)
+            minv = gen.min_lattice_vector(ph0.supercell.cell)
+            cutoff = minv * rng.uniform(0.42, 0.495)
+            if cutoff >= U.nn_distance(cell) * 1.001:
+                break
+        else:
+            continue
+        kfun, kdesc = U.make_kfun(rng)
+        ph2, qmap = U.relabelled_phonopy(cell, cen, smat, mname, dense=rng.random() < 0.7)
+        zsp = sorted(set(int(z) for z in ph0.primitive.numbers))
+        zeff = rng.choice([0.5, 1.0, 1.5, 2.0])
+        eps = rng.choice([1.5, 2.5, 4.0])
+        info = dict(cell=name, smat=smat.tolist(), centring=cen, relabelling=mname, M=gen.UNIMODULAR[mname],
+                    volume_sign=float(np.sign(ph2.unitcell.volume)), nac=method, cutoff=float(cutoff), kfun=kdesc,
+                    born="+-%g I" % zeff if method else None, dielectric="%g I" % eps if method else None)
+        qlist0 = [np.array([rng.uniform(-0.5, 0.5) for _ in range(3)]) for _ in range(2)] + [np.array([0.5, 0.0, 0.0]), np.array([0.02, 0.01, 0.0])]
+        spectra = {}
+        for tag, ph, qm in (("original", ph0, lambda x: np.array(x)), (mname, ph2, qmap)):
+            ph.force_constants = gen.pair_fc(ph.supercell, cutoff, kfun=kfun, images=U.images_needed(ph.supercell.cell, cutoff))
+            if method:
+                born = np.array([(zeff if int(z) == zsp[0] else -zeff) * np.eye(3) for z in ph.primitive.numbers])
+                ph.nac_params = {"born": born, "dielectric": eps * np.eye(3), "factor": 14.4, "method": method}
+            pc = ph.primitive
+            floor = float(np.abs(ph.force_constants).max()) / float(min(pc.masses))
+            ql = [qm(x) for x in qlist0]
+            G = np.array([rng.randint(-2, 2) for _ in range(3)], dtype=float)
+            D, F = dyn(ph, ql + [-x for x in ql] + [x + G for x in ql])
+            nq_ = len(ql)
+            spectra[tag] = np.sign(F[:nq_]) * (F[:nq_] / factor) ** 2
+
+            def viol2(klass, what, qq=None, **kw):
+                run.violation("Phonopy.run_qpoints", klass, "%s description%s: %s" % (tag, " (NAC %s)" % method if method else "", what),
+                              dict(info, description=tag, q=None if qq is None else list(map(float, qq)), **kw))
+
+            for n in range(nq_):
+                nd = norm(D[n], floor)
+                if np.abs(D[n] - D[n].conj().T).max() > TOL * nd:
+                    viol2("relabelled/hermitian", "D(q) is not Hermitian (%.3g)" % np.abs(D[n] - D[n].conj().T).max(), ql[n])
+                if np.abs(D[nq_ + n] - D[n].conj()).max() > TOL * nd:
+                    viol2("relabelled/time-reversal", "D(-q) != conj D(q) (%.3g)" % np.abs(D[nq_ + n] - D[n].conj()).max(), ql[n])
+                e0 = np.linalg.eigvalsh((D[n] + D[n].conj().T) / 2)
+                if method is None:
+                    eg = np.linalg.eigvalsh((D[2 * nq_ + n] + D[2 * nq_ + n].conj().T) / 2)
+                    if np.abs(eg - e0).max() > TOL * nd:
+                        viol2("relabelled/G-shift-spectrum", "spectrum changes under q -> q+G by %.3g" % np.abs(eg - e0).max(), ql[n], G=G.tolist())
+                run.count("relabelled identities %s nac=%s" % ("original" if tag == "original" else "relabelled", method), section="oracle")
+            # rotations of this description's own primitive symmetry
+            rops = ph.primitive_symmetry.reciprocal_operations
+            sel = list(range(len(rops))) if len(rops) <= 12 else sorted(rng.sample(range(len(rops)), 12))
+            for n in range(2):
+                DR, FR = dyn(ph, [rops[r] @ ql[n] for r in sel])
+                nd = norm(D[n], floor)
+                e0 = np.linalg.eigvalsh((D[n] + D[n].conj().T) / 2)
+                for r, dr in zip(sel, DR):
+                    er = np.linalg.eigvalsh((dr + dr.conj().T) / 2)
+                    if np.abs(er - e0).max() > TOL * nd:
+                        viol2("relabelled/rotation", "spectrum at Rq differs from spectrum at q by %.3g (||D|| = %.3g)" % (np.abs(er - e0).max(), nd),
+                              ql[n], R=np.array(rops[r]).tolist())
+                run.count("relabelled rotation pairs nac=%s" % method, len(sel), section="oracle")
+            # scaling: masses x t (and force constants x s without NAC) on the evaluated object
+            t_ = rng.choice([0.5, 2.0, 4.0])
+            s_ = rng.choice([0.5, 2.0, 3.0]) if method is None else 1.0
+            m0 = np.array(pc.masses, dtype=float)
+            fc_keep = np.array(ph.force_constants, copy=True)
+            ph.masses = m0 * t_
+            if method is None:
+                ph.force_constants = fc_keep * s_
+            D1, F1 = dyn(ph, ql)
+            l1 = np.sign(F1) * (F1 / factor) ** 2
+            sc_ = max(float(np.abs(spectra[tag]).max()), floor)
+            if np.abs(l1 - (s_ / t_) * spectra[tag]).max() > 10 * TOL * sc_ * max(1.0, s_ / t_):
+                viol2("relabelled/scaling", "eigenvalues do not scale by s/t = %g (max diff %.3g)" % (s_ / t_, np.abs(l1 - (s_ / t_) * spectra[tag]).max()), None, s=s_, t=t_)
+            ph.masses = m0
+            if method is None:
+                ph.force_constants = fc_keep
+        sc_ = max(float(np.abs(spectra["original"]).max()), floor)
+        dev = float(np.abs(spectra[mname] - spectra["original"]).max())
+        run.count("description invariance %s nac=%s" % (mname, method), section="oracle")
+        if dev > 10 * TOL * sc_:
+            run.violation("Phonopy.run_qpoints", "description-invariance/nac=%s" % method,
+                          "spectrum at qmap(q) in the relabelled description (%s, volume sign %+d) differs from the spectrum at q in the original "
+                          "description by %.3g (scale %.3g)" % (mname, int(info["volume_sign"]), dev, sc_),
+                          dict(info, q_original=[list(map(float, x)) for x in qlist0]))
+        run.case(("relabel", name, dims, mname, method, float(cutoff), float(qlist0[0][0])), nontrivial=True)
+        run.count("relabelled: %s nac=%s" % (mname, method))
+        run.sample(dict(kind="relabelled", **info), limit=10)
 
     # ------------------------------------------------------------------ coordinates with noise inside symprec
     # hexagonal cells whose fractional coordinates are written with six decimals (0.333333 / 0.666667: ~1e-6 Angstrom
